@@ -45,3 +45,18 @@ func thmDeleteThenHas(t *Trie, b, x []byte) {
 	//@ assert h2 ==> h0
 	_, _, _, _, _ = hb, h0, r, h1, h2
 }
+
+//@ theorem C15.addThenHasPrefix
+//@   props C15
+//@   requires t != nil && t <= alloc && 0 <= n && n <= len(b)
+//@   requires forall y ref :: y != nil ==> !isnil(y.m)
+//@   requires forall y ref, k int :: has(y.m, k) ==> y.m[k] != nil
+//@   requires closed(heaphas(t.m), heapval(t.m), alloc)
+// Add(b) inserts b "and its prefixes": after Add(b), Has holds for every prefix
+// b[:n] of b.
+func thmAddThenHasPrefix(t *Trie, b []byte, n int) {
+	t.Add(b)
+	h := t.Has(b[:n])
+	//@ assert h
+	_ = h
+}
